@@ -373,12 +373,10 @@ func (self Reflect) childMap(v reflect.Value) node.Node {
 		Peekable: v.Interface(),
 		OnChoose: func(state *node.Selection, choice *meta.Choice) (m *meta.ChoiceCase, err error) {
 			for _, c := range choice.Cases() {
-				for _, d := range c.DataDefinitions() {
-					mapKey := reflect.ValueOf(d.Ident())
-					mapVal := v.MapIndex(mapKey)
-					if mapVal.IsValid() {
-						return c, nil
-					}
+				if caseHasData(c, func(d meta.Definition) bool {
+					return v.MapIndex(reflect.ValueOf(d.Ident())).IsValid()
+				}) {
+					return c, nil
 				}
 			}
 			return nil, nil
